@@ -25,6 +25,8 @@ META = {
     "level_note": "Trusts pickle's default reduce protocol (copyreg.__reduce_ex__: cls.__new__(cls, *getnewargs) then state). "
     "String quoting via repr and template-string printing are value-level and not decided.",
 }
+META["technique"] += "; symbolic evaluation of the printers' source over enumerated operator trees, re-parsed with a Pratt model whose table and associativity are read from the parser's source; string writer/reader escape-table agreement; number-form agreement against the lexer's FLOAT/INT rules; printer completeness; identifier-quoting flow from parse_string_or_identifier to __str__"
+META["level_text"] += ' Also decided (R8-R13): no constructor field the renderer reads is missing from __str__ and no behaviour is keyed on token kinds; for every operator tree up to depth 3 the printed condition re-parses to the same tree; string text is written only with escapes the decoder maps back (no Python repr, `${` escaped); float/int literals print in a form the lexer reads back as the same kind and value; names accepted as quoted strings are printed through a quoting helper. Token-level printing of `{% liquid %}` line statements beyond path tokens is not decided.'
 
 TAGWORD = re.compile(r"\{%\x00?\s*([a-z_#]+)")
 
